@@ -298,3 +298,14 @@ package twig
 //@ list order_injective_keys toString
 //@ func sortedMapKeys props: C05 C03
 //@   requires ufi_kind(rv) == 21
+
+// ---------------------------------------------------------------- truthiness (C09, C19)
+// false, every numeric zero, "", nil, an empty list and an empty map are falsy; everything else is
+// truthy (floats are outside this family: uninterpreted).
+//@ define truthySpec(V, R) (V == nil ==> !R) && (typeIs(V, "bool") ==> R == unboxAs(V, "bool")) && (typeIs(V, "int") ==> R == (unboxAs(V, "int") != 0)) && (typeIs(V, "int8") ==> R == (unboxAs(V, "int8") != 0)) && (typeIs(V, "int16") ==> R == (unboxAs(V, "int16") != 0)) && (typeIs(V, "int32") ==> R == (unboxAs(V, "int32") != 0)) && (typeIs(V, "int64") ==> R == (unboxAs(V, "int64") != 0)) && (typeIs(V, "uint") ==> R == (unboxAs(V, "uint") != 0)) && (typeIs(V, "uint8") ==> R == (unboxAs(V, "uint8") != 0)) && (typeIs(V, "uint16") ==> R == (unboxAs(V, "uint16") != 0)) && (typeIs(V, "uint32") ==> R == (unboxAs(V, "uint32") != 0)) && (typeIs(V, "uint64") ==> R == (unboxAs(V, "uint64") != 0)) && (typeIs(V, "string") ==> R == (unboxAs(V, "string") != "")) && (typeIs(V, "[]interface{}") ==> R == (len(unboxAs(V, "[]interface{}")) > 0)) && (typeIs(V, "map[string]interface{}") ==> R == (len(unboxAs(V, "map[string]interface{}")) > 0)) && (V != nil && !typeIs(V, "bool") && !typeIs(V, "int") && !typeIs(V, "int8") && !typeIs(V, "int16") && !typeIs(V, "int32") && !typeIs(V, "int64") && !typeIs(V, "uint") && !typeIs(V, "uint8") && !typeIs(V, "uint16") && !typeIs(V, "uint32") && !typeIs(V, "uint64") && !typeIs(V, "string") && !typeIs(V, "[]interface{}") && !typeIs(V, "map[string]interface{}") && !typeIs(V, "float32") && !typeIs(V, "float64") && (ufi_ikind(V) == 17 || ufi_ikind(V) == 21 || ufi_ikind(V) == 23) ==> R == (ufi_ilen(V) > 0))
+//@ func (*RenderContext).toBool props: C09
+//@   ensures truthySpec(val, ret)
+//@ func toBool props: C09
+//@   ensures truthySpec(value, ret)
+//@ func isEmptyValue props: C19 C09
+//@   ensures truthySpec(v, !ret)
